@@ -91,7 +91,9 @@ fn base_cfg(pattern: &str, i: usize, seed: u64, real: bool) -> HsCfg {
         stateless: i % 2 == 1,
         transport_msgs: 4,
         query_each_step: false,
-        wrong_rs: false,
+        // a superfluous remote static (not the peer's) for a party whose pattern does not pre-share it: every
+        // property's scenarios see it now and then (the properties about it set it explicitly)
+        wrong_rs: (i / 3 + (seed as usize % 4)) % 5 == 2,
         // psks through the builder, through set_psk after build (both / one side), an extra unused psk slot
         psk_via: [0u8, 1, 0, 2, 0, 3, 1][(i / 2 + (seed as usize % 5)) % 7],
         extra_psk: (i + (seed as usize % 3)) % 4 == 1,
